@@ -273,7 +273,32 @@ class Check:
             thms += [(mod, n) for n in names]
         if thms:
             self.audit_axioms(thms)
+        if self.tier == "thorough" and thms:
+            self.recheck([m for m in mods if os.path.exists(os.path.join(LEAN, *m.split(".")) + ".lean")])
         return not self.broken()
+
+    def recheck(self, mods):
+        """thorough tier: the toolchain's independent checker replays every declaration of the property modules and of
+        all of our modules they import (the compiled .olean files, not the elaborator, are what is re-checked)"""
+        from concurrent.futures import ThreadPoolExecutor
+        closure = []
+        for m in mods:
+            for c in lean_imports_closure(m):
+                if c not in closure:
+                    closure.append(c)
+        t0 = time.time()
+
+        def one(m):
+            r = subprocess.run(["lake", "env", "leanchecker", m], cwd=LEAN, stdout=subprocess.PIPE, stderr=subprocess.STDOUT, text=True)
+            return m, r.returncode, r.stdout[-300:]
+        bad = []
+        with Lock("lake"):
+            with ThreadPoolExecutor(8) as ex:
+                for m, rc, out in ex.map(one, closure):
+                    if rc != 0:
+                        bad.append("%s: %s" % (m, out.strip().replace("\n", " ")[-200:]))
+        self.timing["leanchecker_s"] = round(time.time() - t0, 2)
+        self.oblige("recheck:leanchecker(%d modules)" % len(closure), not bad, "; ".join(bad[:4]))
 
     def audit_axioms(self, thms):
         os.makedirs(os.path.join(LEAN, "PP", "Audit"), exist_ok=True)
